@@ -60,8 +60,8 @@ def run(ctx):
     lib.coq_make(["theories/Search.vo"])
     n_prog = ctx.pick(40, 400)
     N = ctx.pick(5, 7)
-    progs = list(gen.corpus())
-    while len(progs) < n_prog:
+    progs = lib.replay_programs(ctx) or list(gen.corpus())
+    while len(progs) < n_prog and not ctx.replay:
         g = gen.G(ctx.rng, max_depth=ctx.rng.choice([1, 2]))
         p = g.program()
         progs.append((p, g.goals(2), "+".join(sorted(g.features))))
@@ -145,7 +145,7 @@ def run(ctx):
             if attributed is None:
                 attributed = attribute_to_typer(ctx, r["flat"], r.get("original_loop_guard")) if "unsupported" not in r.get("flat", {}) else False
             sig = c05.KNOWN_SITE if attributed else f"moment-mismatch:{text}:{gname}"
-            ctx.violation(sig, {"program_text": text, "goal": gname, "n": bad[0], "polar_value": str(bad[1]),
+            ctx.violation(sig, {"program_text": text, "prog_json": P.to_json(p), "goals_json": [P.to_json(m)], "goal": gname, "n": bad[0], "polar_value": str(bad[1]),
                                 "reference_value": str(bad[2]), "closed_form": gr["sols"][idx], "flat_program": r.get("flat_text")},
                           f"E({gname}) of the program below: Polar's closed form gives {bad[1]} at n={bad[0]}, "
                           f"the exact expectation is {bad[2]}\n{text}")
